@@ -6,11 +6,12 @@ LEVEL = "model_checking"
 
 def run(ctx):
     q = ctx.quick
-    fn_pipeline(ctx, "C25", "filter", "GenFilter", "TraceFilter", consts={"MaxLen": 2 if q else 3},
-                limit=None if q else 30000, trace_consts={"MaxLen": 3},
+    fn_pipeline(ctx, "C25", "filter", "GenFilter", "TraceFilter", consts={"MaxLen": 2, "MaxLenV": 3 if q else 5},
+                limit=None if q else 40000, trace_consts={"MaxLen": 3, "MaxLenV": 3},
                 nontrivial=lambda c: len(c["c"]["dvs"]) >= 2,
                 rule="TLC enumerates every trigger x deadband {none, abs 0, abs 1, abs -1, percent} x every sequence of up to "
-                     "MaxLen DataValues over value {0,1,5,string} x status {Good,Bad} x timestamp {t0,t1}; each case runs on a real "
+                     "2 DataValues over value {0,1,2,5,string} x status {Good,Bad} x timestamp {t0,t1} and every sequence of up to "
+                     "3 (thorough 5) samples in which only the value changes (a slowly drifting value); each case runs on a real "
                      "monitored item with the real DataChangeFilter, one sample per publishing interval with a publish request "
                      "queued; non-trivial = at least two samples; distinct by (filter, sequence)")
     ctx.assumptions += ["a reported sample = a DataChangeNotification in the publish response of that interval",
